@@ -77,8 +77,13 @@ fn offset_of(class: &str) -> f64 {
     }
 }
 
-fn sample_bytes(offset: f64, pulse: i32, leap: i32, magic: i32) -> [u8; SOCK_SAMPLE_SIZE] {
-    let mut b = [0u8; SOCK_SAMPLE_SIZE];
+// The sample layout as documented by gpsd (struct sock_sample), deliberately NOT taken from the constants of the code
+// under test: 40 bytes, magic 0x534f434b ("SOCK").
+const SIZE: usize = 40;
+const MAGIC: i32 = 0x534f_434b;
+
+fn sample_bytes(offset: f64, pulse: i32, leap: i32, magic: i32) -> [u8; SIZE] {
+    let mut b = [0u8; SIZE];
     b[0..8].copy_from_slice(&1_700_000_000i64.to_le_bytes());
     b[8..16].copy_from_slice(&250_000i64.to_le_bytes());
     b[16..24].copy_from_slice(&offset.to_le_bytes());
@@ -91,8 +96,8 @@ fn sample_bytes(offset: f64, pulse: i32, leap: i32, magic: i32) -> [u8; SOCK_SAM
 /// The datagram of a class: the 40-byte layout cut to `size`, or extended with filler bytes.
 fn datagram(c: &Value) -> Vec<u8> {
     let magic = match c["magic"].as_str().unwrap() {
-        "ok" => SOCK_MAGIC,
-        "off1" => SOCK_MAGIC + 1,
+        "ok" => MAGIC,
+        "off1" => MAGIC + 1,
         _ => 0,
     };
     let full = sample_bytes(offset_of(c["off"].as_str().unwrap()), c["pulse"].as_i64().unwrap() as i32, c["leap"].as_i64().unwrap() as i32, magic);
@@ -162,7 +167,7 @@ impl TaskSut {
         self.sentinel += 1;
         let mark = 4096.0 + self.sentinel as f64; // exactly representable, unlike any probe offset
         self.client.send(dg).map_err(|e| format!("send failed: {e}"))?;
-        self.client.send(&sample_bytes(mark, 0, 0, SOCK_MAGIC)).map_err(|e| format!("send failed: {e}"))?;
+        self.client.send(&sample_bytes(mark, 0, 0, MAGIC)).map_err(|e| format!("send failed: {e}"))?;
         for round in 0..40_000u32 {
             {
                 let log = self.log.lock().unwrap();
@@ -200,6 +205,9 @@ fn replay(job: &Value) {
     rt.block_on(async {
         let mut nsut = 0;
         let mut sut: Option<TaskSut> = None;
+        // consecutive probes whose well-formed sentinel was not turned into a measurement; after two of them (the
+        // second on a fresh task) the task evidently rejects well-formed samples: stop waiting, fail the rest quickly
+        let mut deaf = 0;
         for r in rows {
             let a = &r["act"];
             let c = &a["c"];
@@ -211,8 +219,14 @@ fn replay(job: &Value) {
                     sut = Some(TaskSut::start(nsut));
                 }
                 let dg = datagram(c);
-                match sut.as_mut().unwrap().probe(&dg).await {
+                let probed = if deaf >= 2 {
+                    Err("a well-formed sample is not turned into a measurement".to_string())
+                } else {
+                    sut.as_mut().unwrap().probe(&dg).await
+                };
+                match probed {
                     Ok((ms, died)) => {
+                        deaf = 0;
                         if died {
                             sut = None; // restart the task for the next probe
                         }
@@ -225,6 +239,7 @@ fn replay(job: &Value) {
                     }
                     Err(e) => {
                         sut = None;
+                        deaf += 1;
                         (json!({}), Some(e))
                     }
                 }
